@@ -39,7 +39,7 @@ def run(R):
     R.whole_file_write("C19.registry.whole", "ant_service_management::NodeRegistry::save", "the registry saved after each step is replaced whole (loads back to the same state)")
     F = R.F
     owners = [NS + "on_start", NS + "on_stop", NS + "on_remove"]
-    R.who_may_write("C19.own.status", NSD, "status", owners, floor=3, descr="NodeServiceData.status is assigned only in NodeService::on_start/on_stop/on_remove")
+    R.who_may_write("C19.own.status", NSD, "status", owners, floor=2, descr="NodeServiceData.status is assigned only in NodeService::on_start/on_stop/on_remove")
     R.who_may_write("C19.own.pid", NSD, "pid", owners, floor=2, descr="NodeServiceData.pid is assigned only in NodeService::on_start/on_stop")
     lits = R.who_may_construct("C19.own.literal", NSD, None, [ADD, RUN, RESTART], floor=3, descr="NodeServiceData literals only in add_node, rpc::restart_node_service and local::run_node")
     for b, a in lits:
